@@ -39,20 +39,20 @@ def rj(fr):
 
 def new_op(rng, kind, idn=0, small=False, **over):
     op = {"op": "new", "id": idn, "kind": kind, "T": rng.choice([64, 64, 32]),
-          "ch": rng.choice([1, 1, 2, 3, 4]), "seed": rng.randrange(1 << 30)}
+          "ch": rng.choice([1, 1, 2, 3, 4] if rng.random() < 0.95 else [8, 9, 17]), "seed": rng.randrange(1 << 30)}
     if kind in ASYNC:
         r = rng.choice(RATIOS)
         op["r"] = rj(r)
         op["maxrel"] = rj(rng.choice(MAXRELS))
         if kind.startswith("Fast"):
             op["degree"] = rng.choice(DEGREES)
-            op["chunk"] = rng.choice([1, 2, 3, 5, 8, 13, 32, 64, 100, 256, 1024] if not small else [1, 2, 3, 4, 8, 16])
+            op["chunk"] = rng.choice([1, 2, 3, 5, 8, 13, 32, 64, 100, 256, 1024, 4096] if not small else [1, 2, 3, 4, 8, 16])
         else:
             # requested lengths that are not multiples of 8 are rounded up by the library
-            op["L"] = rng.choice([8, 16, 32, 64, 128, 256, 24, 10, 20, 44, 100] if not small else [8, 16, 12])
+            op["L"] = rng.choice([8, 16, 32, 64, 128, 256, 24, 10, 20, 44, 100, 512] if not small else [8, 16, 12])
             op["interp"] = rng.choice(INTERPS)
             op["F"] = rng.choice([2, 4, 16, 128, 256, 3, 100, 160] + ([1] if op["interp"] in ("Linear", "Nearest") else []))
-            op["chunk"] = rng.choice([1, 3, 8, 32, 64, 100, 256, 512, 1024] if not small else [1, 2, 4, 8, 16])
+            op["chunk"] = rng.choice([1, 3, 8, 32, 64, 100, 256, 512, 1024, 4096] if not small else [1, 2, 4, 8, 16])
             op["window"] = rng.choice(WINDOWS)
         op["signal"] = "index"
         if kind.startswith("Sinc"):
